@@ -250,6 +250,8 @@ def run(ctx):
         res.violation(sig, "%s: %s at step %s, outcome %s%s -> reply code %s%s" % (
             clause, c["cmd"], c["step"], c["kind"], (" 0x%04X" % c["sw"]) if c["kind"] == "sw" else "",
             c["code"] if c["hascode"] else "<none>", ", manager stops" if c["shutdown"] else ""), {"cell": c})
+    from .. import manager_phase
+    manager_phase.run_phase(ctx, res, "C04")
     for c in cells[:3] + cells[-2:]:
         res.sample(c)
     return res
